@@ -90,4 +90,4 @@ __CPROVER_loop_invariant(git <= self->groups_.size && g_ndgo == git && self->del
 __CPROVER_decreases(self->groups_.size - git)
 //@end
 void h_EI(void) { ClipperOffsetS* s; double d; LOG_INIT(); ExecuteInternal(s, d); VF_CANARY(); }
-//@run name=ExecuteInternal entry=h_EI enforce=ExecuteInternal replace=vf_fmul,vf_fdiv,CalcSolutionCapacity,Sol_reserve,Sol_clear,Sol_size,vf_copy,DoGroupOffset__p,CheckReverseOrientation,Clipper64_ctor,Clipper_PreserveCollinear,Clipper_ReverseSolution,Clipper_AddSubject,Clipper_Execute1,Clipper_ExecuteTree1 loops=1 flags="--bounds-check" timeout=600
+//@run name=ExecuteInternal entry=h_EI enforce=ExecuteInternal replace=vf_fmul,vf_fdiv,CalcSolutionCapacity,Sol_reserve,Sol_clear,Sol_size,vf_copy,DoGroupOffset__p,CheckReverseOrientation,Clipper64_ctor,Clipper_PreserveCollinear,Clipper_ReverseSolution,Clipper_AddSubject,Clipper_Execute1,Clipper_ExecuteTree1 loops=1 flags="--bounds-check" timeout=900
